@@ -994,7 +994,7 @@ func ruleWalDirAfterFlush(r *Report) {
 	o := &order{r, r.P}
 	A := CallsIn(fn, Keys("simpledb.executeFlush"))
 	R := CallsIn(fn, Suffix("WriteAheadLogReplayI.Replay", "Replayer.Replay"))
-	B := CallsIn(fn, Keys("os.RemoveAll", "os.Remove"))
+	B := walDirRemovals(r.P, fn)
 	// guard edge: the branch around the flush taken when no record was replayed. It is the If on which the
 	// executeFlush call is control dependent: the edge that does not lead to the flush.
 	var guards []Edge
@@ -1319,7 +1319,7 @@ func ruleFreshWalDir(r *Report) {
 	}
 	o := &order{r, r.P}
 	W := CallsIn(fn, Keys("wal.NewWriteAheadLog", "wal.NewAppender"))
-	R := CallsIn(fn, Keys("os.RemoveAll"))
+	R := walDirRemovals(r.P, fn)
 	M := CallsIn(fn, Keys("os.MkdirAll", "os.Mkdir"))
 	// only the MkdirAll calls that come after a RemoveAll count for the second obligation
 	var M2 []Site
@@ -1627,4 +1627,138 @@ func freshGenerationName(v ssa.Value) bool {
 		}
 	}
 	return false
+}
+
+// R-wal-removal-order: after recovery has flushed the replayed log into a table, the log files are removed OLDEST
+// FIRST. os.RemoveAll on the directory unlinks in directory order; a kill after a newer file went and before an older
+// one did leaves the older file next to the new table, the next Open replays it over the table and overwritten values
+// come back. Replaying a suffix of the log over the state of the whole log changes nothing, so oldest-first is safe.
+func ruleWalRemovalOrder(r *Report) {
+	const rule = "wal-removal-order"
+	r.Rule(rule, 1, "recovery removes the files of the WAL directory through a sweep over a sorted listing (os.ReadDir) before the directory itself — never with a bare RemoveAll of a directory that can hold several log files")
+	p := r.P
+	fn := r.NeedFunc(rule, "simpledb.DB.replayAndSetupWriteAheadLog")
+	if fn == nil {
+		return
+	}
+	key := rule + "/simpledb.DB.replayAndSetupWriteAheadLog"
+	sites := walDirRemovals(p, fn)
+	if len(sites) == 0 {
+		r.Missing(rule, key, "recovery never removes the WAL directory")
+		return
+	}
+	inLoop := func(s Site) bool {
+		for _, su := range s.Block.Succs {
+			if reachFrom(su, nil)[s.Block] {
+				return true
+			}
+		}
+		return false
+	}
+	// orderedSweep: g lists a directory sorted (os.ReadDir) and removes inside a loop; every removal outside the loop
+	// is dominated by the listing (it comes after the sweep)
+	orderedSweep := func(g *ssa.Function) bool {
+		lists := CallsIn(g, Keys("os.ReadDir"))
+		if len(lists) == 0 {
+			return false
+		}
+		loopRm := false
+		for _, rm := range CallsIn(g, Keys("os.Remove", "os.RemoveAll")) {
+			if inLoop(rm) {
+				// the removed path is built from an element of the listing that is indexed by an ascending counter
+				asc := false
+				for _, a := range rm.Call().Common().Args {
+					if valueDependsOn(a, func(v ssa.Value) bool {
+						ia, ok := v.(*ssa.IndexAddr)
+						if !ok || !valueDependsOn(ia.X, func(x ssa.Value) bool { return x == lists[0].Instr.(ssa.Value) }) {
+							return false
+						}
+						return ascendingCounter(ia.Index)
+					}) {
+						asc = true
+					}
+				}
+				if !asc {
+					return false
+				}
+				loopRm = true
+			} else if !precedes(lists[0], rm) {
+				return false
+			}
+		}
+		return loopRm
+	}
+	bad := ""
+	for _, s := range sites {
+		c := s.Instr.(*ssa.Call)
+		switch CalleeKey(c) {
+		case "os.Remove", "os.RemoveAll":
+			if orderedSweep(fn) && (inLoop(s) || precedes(CallsIn(fn, Keys("os.ReadDir"))[0], s)) {
+				continue
+			}
+			// renamed away first?
+			renamed := false
+			for _, rn := range CallsIn(fn, Keys("os.Rename")) {
+				if precedes(rn, s) {
+					renamed = true
+				}
+			}
+			if renamed {
+				continue
+			}
+			bad = p.Pos(s.Pos())
+		default:
+			if sc := c.Call.StaticCallee(); sc == nil || !orderedSweep(sc) {
+				bad = p.Pos(s.Pos())
+			}
+		}
+	}
+	if bad != "" {
+		r.Bad(rule, key, sites[0].Pos(), "the WAL directory is removed with a bare RemoveAll at "+bad+": the files are unlinked in directory order, so a kill can leave an older log file without the newer ones next to the table recovery just flushed; the next Open replays the older file over that table and an overwritten value is back (image: wal/{000000.wal: k=v1, 000001.wal: k=v2}, first recovery killed after unlinking 000001.wal → Get(k) = v1)")
+	} else {
+		r.OK(rule, key, sites[0].Pos(), "log files are removed oldest first")
+	}
+}
+
+// walDirRemovals: the removal sites of recovery other than the flush itself (which reclaims nothing when it is called
+// without a WAL path).
+func walDirRemovals(p *Prog, fn *ssa.Function) []Site {
+	var out []Site
+	for _, s := range removalSites(p, fn) {
+		if CalleeKey(s.Call()) == "simpledb.executeFlush" {
+			continue
+		}
+		out = append(out, s)
+	}
+	return out
+}
+
+// ascendingCounter: idx is a loop counter that only ever grows by one (range loop or `for i := 0; …; i++`).
+func ascendingCounter(idx ssa.Value) bool {
+	var phi *ssa.Phi
+	switch x := idx.(type) {
+	case *ssa.Phi:
+		phi = x
+	case *ssa.BinOp:
+		// rotated range loops index with phi+1
+		if c, ok := constInt(x.Y); ok && c == 1 && x.Op == token.ADD {
+			phi, _ = x.X.(*ssa.Phi)
+		}
+	}
+	if phi == nil {
+		return false
+	}
+	for _, e := range phi.Edges {
+		if _, isC := constInt(e); isC {
+			continue
+		}
+		bo, ok := e.(*ssa.BinOp)
+		if !ok || bo.Op != token.ADD || bo.X != ssa.Value(phi) {
+			return false
+		}
+		if c, ok := constInt(bo.Y); !ok || c != 1 {
+			return false
+		}
+	}
+	return true
 }
